@@ -81,7 +81,7 @@ let () =
             !c in
           (* heavy perturbation: the cost function itself by one ulp (std::pow / log and their OCaml counterparts, summation order) *)
           let cost xl = let c = cost0 xl in if pert <= 20 then c else c *. (1.0 +. pnext ()) in
-          let grad (xl : float list) : float list =
+          let grad0 (xl : float list) : float list =
             let x = Array.of_list xl in
             let g = Array.make n 0.0 in
             if kind = "q" || kind = "l" then
@@ -105,6 +105,15 @@ let () =
                 h.(i+1).(i) <- h.(i+1).(i) +. (-400.0 *. x.(i)); h.(i+1).(i+1) <- h.(i+1).(i+1) +. 200.0 done end;
             for i = 0 to n - 1 do for j = i + 1 to n - 1 do h.(i).(j) <- h.(j).(i) done done;
             Array.to_list (Array.map Array.to_list h) in
+          (* heavy perturbation: a gradient component is a sum of terms of the size of (largest Hessian entry) x |x| that cancel near a
+             stationary point; its rounding error is a few ulp of THAT size, whatever the size of the component itself *)
+          let grad xl =
+            let g = grad0 xl in
+            if pert <= 20 then g else begin
+              let hs = List.fold_left (fun a row -> List.fold_left (fun a v -> Float.max a (Float.abs v)) a row) 1.0 (hess xl) in
+              let xs = List.fold_left (fun a v -> Float.max a (Float.abs v)) 1.0 xl in
+              let amp = float_of_int (1 lsl (pert mod 10)) in
+              List.map (fun v -> v +. hs *. xs *. amp *. pnext ()) g end in
           let norm2 v = sqrt (List.fold_left (fun a x -> a +. x *. x) 0.0 v) in
           let isfinite (x : float) = Float.is_finite x in
           let ofnat k = float_of_int (int_of_nat k) in
